@@ -29,6 +29,8 @@ func main() {
 		os.Exit(metaMain(os.Args[2:]))
 	case "lookupsync":
 		os.Exit(lookupsyncMain(os.Args[2:]))
+	case "rawconv":
+		os.Exit(rawconvMain(os.Args[2:]))
 	}
 	fmt.Fprintln(os.Stderr, "unknown subcommand")
 	os.Exit(2)
@@ -61,6 +63,9 @@ func drive(args []string) int {
 	}
 	report := &Report{Shapes: map[string]int{}}
 	for i := *first; i < *first+*runs; i++ {
+		// progress + partial report: if the in-process daemon panics, the caller knows which scenario it was
+		os.WriteFile(*rep+".progress", []byte(fmt.Sprint(i)), 0644)
+		hlib.WriteJSON(*rep+".partial", report)
 		sc := genScenario(*mode, *seed*1000+int64(i))
 		d := filepath.Join(*dir, fmt.Sprintf("run%d", i))
 		os.MkdirAll(d, 0755)
@@ -74,6 +79,14 @@ func drive(args []string) int {
 			evs, res = runScenarioCounted(sc, d)
 		}
 		os.RemoveAll(d)
+		if kd := os.Getenv("VERIF_KEEP_RAW"); kd != "" && len(res.Fails) > 0 {
+			if w, err := hlib.NewNDJSON(filepath.Join(kd, fmt.Sprintf("raw-%s-%d-%d.ndjson", *mode, *seed, i))); err == nil {
+				for _, e := range evs {
+					w.Put(e.Map())
+				}
+				w.Close()
+			}
+		}
 		report.Runs = append(report.Runs, res)
 		for _, f := range res.Fails {
 			report.Fails = append(report.Fails, sc.String()+": "+f)
